@@ -19,14 +19,16 @@
    deletion markers ([C13g_fault_success_whole_effect], [C13g_fault_success_markers]; non-vacuous:
    [C13g_swallowed_marker_removal]); for every call other than delete_object / delete_metadata(pid,
    None), from ANY world and for PERSISTENT faults too, success means the run WAS the fault-free
-   run ([C13g_one_off_success_identical], [C13g_persistent_success_identical]).
-   NOT proved in general (menu only): (F2) when the flock itself fails; (F3') for PERSISTENT
-   faults in delete_object / delete_metadata(pid, None); (F4) for a pid that is already bound, and for
+   run ([C13g_one_off_success_identical], [C13g_persistent_success_identical]).  PERSISTENT faults,
+   EVERY call (FaultPersist.v): the same whole-effect statement ([C13g_persistent_fault_success_markers],
+   [C13g_persistent_fault_success_whole_effect], both modes in one: [C13g_any_fault_success_whole_effect];
+   non-vacuous: [C13g_persistent_swallowed_marker_removal]).
+   NOT proved in general (menu only): (F2) when the flock itself fails; (F4) for a pid that is already bound, and for
    store_object with a stream source or supplied size / checksum.  For PERSISTENT faults (F4) is false: witness
    [C13g_persistent_fault_defeats_rollback], and the full statement [C13_general_statement] is
    refuted by it ([C13g_statement_false]). *)
 From HS Require Import Base PyVal FS Ops Spec Sched Refine CrashFault Integrity CrashGeneral FaultGeneral
-  FaultSuccess.
+  FaultSuccess FaultPersist.
 From HS Require Bracket Indep.
 
 (* ---------- the fault semantics covered ---------- *)
@@ -402,3 +404,66 @@ Example C13g_swallowed_marker_removal :
   (run_seq w1 (api (CDelete 1)) = Some (mkWorld [] [], Val VUnit)).
 Proof. exact swallowed_marker_removal. Qed.
 Print Assumptions C13g_swallowed_marker_removal.
+
+(* ---------- (F3') PERSISTENT faults, every call (FaultPersist.v) ---------- *)
+
+(* EVERY call (delete_object and delete_metadata(pid, None) included), every PERSISTENT fault, every
+   world whose file map is sorted: success => the fault-free call gives the same answer, and the
+   final worlds have the same locks and the same files except deletion markers.  (A persistent
+   failure sticks to the address of the marker whose removal failed; nothing that runs afterwards
+   on a path to success has that destination, except further swallowed removals.) *)
+Theorem C13g_persistent_fault_success_markers :
+  forall (w : world) (c : call) (k : nat) (w' : world) (v : value),
+    Indep.fsorted (fs w) ->
+    run_fault (FWait k true) w (api c) = Some (w', Val v) ->
+    exists w0 : world, run_seq w (api c) = Some (w0, Val v) /\
+      locks w' = locks w0 /\
+      forall a : addr, (forall x : addr, a <> ADel x) -> lookup a (fs w') = lookup a (fs w0).
+Proof. exact persistent_fault_success_markers. Qed.
+Print Assumptions C13g_persistent_fault_success_markers.
+
+Theorem C13g_persistent_fault_success_whole_effect :
+  forall (w : world) (c : call) (k : nat) (w' : world) (v : value),
+    Indep.fsorted (fs w) ->
+    run_fault (FWait k true) w (api c) = Some (w', Val v) ->
+    exists w0 : world, run_seq w (api c) = Some (w0, Val v) /\
+      locks w' = locks w0 /\
+      forall a : addr, permanent a = true -> lookup a (fs w') = lookup a (fs w0).
+Proof. exact persistent_fault_success_whole_effect. Qed.
+Print Assumptions C13g_persistent_fault_success_whole_effect.
+
+(* C13, first clause, in one statement: every call, every fault position, BOTH modes *)
+Theorem C13g_any_fault_success_whole_effect :
+  forall (w : world) (c : call) (k : nat) (pers : bool) (w' : world) (v : value),
+    Indep.fsorted (fs w) ->
+    run_fault (FWait k pers) w (api c) = Some (w', Val v) ->
+    exists w0 : world, run_seq w (api c) = Some (w0, Val v) /\
+      locks w' = locks w0 /\
+      forall a : addr, permanent a = true -> lookup a (fs w') = lookup a (fs w0).
+Proof. exact any_fault_success_whole_effect. Qed.
+Print Assumptions C13g_any_fault_success_whole_effect.
+
+Theorem C13g_any_fault_success_whole_effect_reachable :
+  forall (h : list call) (w : world) (rs : list (outcome value)) (c : call) (k : nat) (pers : bool)
+         (w' : world) (v : value),
+    run_history empty_world h = Some (w, rs) ->
+    run_fault (FWait k pers) w (api c) = Some (w', Val v) ->
+    exists w0 : world, run_seq w (api c) = Some (w0, Val v) /\
+      locks w' = locks w0 /\
+      forall a : addr, permanent a = true -> lookup a (fs w') = lookup a (fs w0).
+Proof. exact any_fault_success_whole_effect_reachable. Qed.
+Print Assumptions C13g_any_fault_success_whole_effect_reachable.
+
+(* non-vacuity: delete_object(1), the object has a metadata document; fault site 7 = the removal of
+   the marker of the pid reference fails PERSISTENTLY: swallowed; the other markers are removed,
+   delete_metadata(1, None) removes the document; success, that one marker stays *)
+Example C13g_persistent_swallowed_marker_removal :
+  let w1 := mkWorld [(AObj 7, CData 7 1 1); (APidRef 1, CCid 7); (ACidRef 7, CLines [1]);
+                     (AMeta 1 0, CData 5 1 1)] [] in
+  Indep.fsorted (fs w1) /\
+  (site_op 7 w1 (api (CDelete 1)) = Some (Remove (ADel (APidRef 1)))) /\
+  (run_fault (FWait 7 true) w1 (api (CDelete 1)) =
+     Some (mkWorld [(ADel (APidRef 1), CCid 7)] [], Val VUnit)) /\
+  (run_seq w1 (api (CDelete 1)) = Some (mkWorld [] [], Val VUnit)).
+Proof. exact persistent_swallowed_marker_removal. Qed.
+Print Assumptions C13g_persistent_swallowed_marker_removal.
